@@ -169,3 +169,9 @@ package limit
 //@   requires [*] allocatable: cap(opts.Input) + 1 < two63
 //@   ensures [C04 C12] (result1 == nil) <==> (opts.Input != nil && opts.Limit.Interval > 0 && opts.Limit.Quantity > 0)
 //@   ensures [*] result1 == nil ==> result0 != nil
+
+// ---------------------------------------------------------------- C20: ownership discipline
+//@ confine Discipline
+//@ shared opts output
+//@ entries (*Discipline).main
+//@ ctors New
